@@ -93,6 +93,9 @@ class Builder:
             return s, False
         if f["feed"] == 1:
             return f"self + {s}", False
+        if f["feed"] == 3:
+            # a nested tuple: one `self` cell of three words
+            return f"let (sa, (sb, sc)) = self\n  let s = {s}\n  (sa + s, (sb + 1, sc + sa))", True
         # the sum is bound first: an `if` inside a tuple literal is a pinned finding of C01/C03
         return f"let (sa, sb) = self\n  let s = {s}\n  (sa + s, sb + 1)", True
 
@@ -172,7 +175,7 @@ def run(tier):
         # a tuple-valued temporary next to an `if` is a pinned finding of C01 (WASM computes other
         # values there, hence other state words): the word comparison skips those shapes
         txt = json.dumps(s["fn"])
-        tuple_and_if = ('"if"' in txt or '"sw"' in txt) and '"feed": 2' in txt.replace('"feed":2', '"feed": 2')
+        tuple_and_if = ('"if"' in txt or '"sw"' in txt) and ('"feed": 2' in txt.replace('"feed":2', '"feed": 2') or '"feed": 3' in txt.replace('"feed":3', '"feed": 3'))
         if not tuple_and_if and out["vm"].get("words") != out["wasm"].get("words"):
             chk.violation(f"VM and WASM state words differ\n{req['src']}", case, key=key)
         nontriv.add(key)
